@@ -373,6 +373,7 @@ pub fn judge_case(c: &Case) -> Obs {
     if out.execs != model.dbg.executed {
         obs.set_fail("C11:wrong-instruction-count", format!("lace executed {} instructions, the reference {}\n{shown}", out.execs, model.dbg.executed));
     }
+    mode_twin(&mut obs, "C11", &p, &script, &input, fuel, out, &shown);
     obs
 }
 
@@ -396,7 +397,7 @@ impl Prop for C11 {
     fn rule(&self) -> &'static str {
         "ProgGen programs with `.break` directives sprinkled by the generator plus 0-3 extra placements at any line position (before the first statement / .orig, between any two, after the last, doubled, on a labelled line), at default and non-default origins x histories of 1-13 commands over every resuming command, break add/remove (absolute, label+-offset, ^offset; extra weight on removing predefined ones), break list, the commands that move the PC while paused (goto, reset), aliasing scenarios (a second breakpoint 64*2^k words away from one in the code, added and removed again), and - a seventh of the sessions - a crowd of 15..18 / 31..34 / 63..66 / 100 / 257 breakpoints on consecutive words from the origin on (written as `.break` lines, or added at run time in a scattered order from the origin on or ending at a word of the program) before a shorter history that is followed by up to 40 further `continue`s among which one or two members of the crowd are removed (and one put back); plus the one-instruction loop `F call F` with a breakpoint on it. \
          Oracle: RefDbg — pause before the marked instruction, resuming executes it once, it fires again on the next arrival (also when that is the very next instruction), removed breakpoints never pause: registers/PC/CC after every command, full final snapshot, executed-instruction count; `.break` occupies no memory (image equals the encoding without it) and marks the next statement (addresses recorded by the assembler); every `break list` equals the model's sorted duplicate-free list. \
-         Non-trivial: a breakpoint is hit at least twice in the session, or a predefined breakpoint is removed and execution continues. Distinct = hash(source, script, input)."
+         One case in six is run once more in the normal (non-minimal) output mode - tables, colours, errors rendered in full: it must end the same way, after the same number of instructions, with the same final machine. Non-trivial: a breakpoint is hit at least twice in the session, or a predefined breakpoint is removed and execution continues. Distinct = hash(source, script, input)."
     }
     fn assumptions(&self) -> Vec<String> {
         vec!["RefDbg (Appendix C); same exclusions as C10".into()]
